@@ -1,7 +1,7 @@
 (** C16 - Duplicate-packets mode.  Pinned statements only. *)
 From Tftp Require Import Base.Decimal Model.Config Proofs.ConfigP.
 From Tftp Require Import Base.Prelude Model.Types Model.Consts Model.Codec Model.Window Model.Worker Model.Spec
-  Proofs.CodecP Proofs.SpecP Proofs.WindowP Proofs.SendP Proofs.RecvP Model.Net Proofs.CosimP.
+  Proofs.CodecP Proofs.SpecP Proofs.WindowP Proofs.SendP Proofs.RecvP Model.Net Proofs.CosimP Proofs.CosimDup.
 Local Open Scope N_scope.
 
 (** [send_packet]: [rep = N + 1] copies back to back; only the result of the first copy
@@ -84,6 +84,17 @@ Theorem C16_duplicates_never_corrupt : forall sc rc f_sr f_rs F,
   (s_phase (p_s p) = SDone OutOk -> r_phase (p_r p) = RDone OutOk /\ written_bytes (w_file (r_w (p_r p))) = F).
 Proof. exact cosim_safe. Qed.
 
+(** ... and transfers in duplicate mode complete: both workers repeating every data-phase datagram
+    (any repeat counts), undisturbed channels, any file, block size and window size - both sides
+    end in success and the receiver holds exactly the file. *)
+Theorem C16_dup_mode_transfer_completes : forall sc rc F,
+  wf_params (s_blk sc) (s_ws sc) -> r_blk rc = s_blk sc -> r_ws rc = s_ws sc -> s_check sc = false ->
+  s_fails sc = [] -> r_fails rc = [] -> 1 <= s_rep sc -> 1 <= r_rep rc -> 0 < s_tmo sc ->
+  exists fuel, let p := pair_run sc rc [] [] fuel (pair_init sc rc [] F) in
+    r_phase (p_r p) = RDone OutOk /\ written_bytes (w_file (r_w (p_r p))) = F /\ s_phase (p_s p) = SDone OutOk.
+Proof. exact cosim_perfect_dup. Qed.
+
+Print Assumptions C16_dup_mode_transfer_completes.
 Print Assumptions C16_duplicates_never_corrupt.
 Print Assumptions C16_first_copy_decides.
 Print Assumptions C16_data_repeated.
